@@ -10,7 +10,7 @@ a failing `assert` terminator (overflow, bounds) and a call into a known panic f
 Loops are unrolled by bounding the number of visits of a block per path; a path that exceeds the bound is returned with
 kind 'unwound' and the caller must treat it as an unwinding-assertion failure.
 """
-import re, copy, itertools
+import re, time, os, copy, itertools
 import z3
 
 INT_TYPES = {"u8": (8, False), "u16": (16, False), "u32": (32, False), "u64": (64, False), "u128": (128, False), "usize": (64, False),
@@ -105,13 +105,18 @@ class Path:
         return z3.And(*self.pc) if self.pc else z3.BoolVal(True)
 
 
+# model values whose identity is their structure, not the name of the place they were last stored in (set by obligations)
+STRUCTURAL_TAGS = {"fut"}
+
+
 def _same(a, b):
     if isinstance(a, z3.ExprRef) and isinstance(b, z3.ExprRef):
         return a.sort() == b.sort() and z3.simplify(a).eq(z3.simplify(b))
     if isinstance(a, Ptr) and isinstance(b, Ptr):
         return a.node.name == b.node.name
     if isinstance(a, Node) and isinstance(b, Node):
-        return a.name == b.name and set(a.kids) == set(b.kids) and all(_same(a.kids[k].val if a.kids[k].val is not None else a.kids[k], b.kids[k].val if b.kids[k].val is not None else b.kids[k]) for k in a.kids)
+        structural = isinstance(a.variant, tuple) and a.variant and a.variant[0] in STRUCTURAL_TAGS and a.variant == b.variant
+        return (structural or a.name == b.name) and set(a.kids) == set(b.kids) and all(_same(a.kids[k].val if a.kids[k].val is not None else a.kids[k], b.kids[k].val if b.kids[k].val is not None else b.kids[k]) for k in a.kids)
     if isinstance(a, Opaque) and isinstance(b, Opaque):
         return a.term.eq(b.term)
     return a is b
@@ -183,6 +188,10 @@ class Ctx:
         self.models = models or []        # list of (regex, fn(ex, frame, callee, argvals, dest_ty) -> value or NotImplemented)
         self.inline = inline or []        # list of regex on callee text -> body name resolver fn(callee)->Body|None
         self.max_visits, self.max_paths = max_visits, max_paths
+        self.steps = 0
+        self.visit_overrides = []       # [(regex on the body header, visits per block)] e.g. small fixed-trip loops of macro-generated closures
+        self.budget_s = float(os.environ.get("VERIF_CTX_BUDGET_S", "900"))
+        self.deadline = time.time() + self.budget_s
         self.fresh = itertools.count()
         self.havoced = []
         self.used_models = set()
@@ -618,7 +627,7 @@ class Executor:
             if v.size() > w:
                 return z3.Extract(w - 1, 0, v)
             return z3.SignExt(w - v.size(), v) if self.signed(body, op) else z3.ZeroExt(w - v.size(), v)
-        if kind.startswith(("Transmute", "PtrToPtr", "PointerCoercion", "FnPtrToPtr", "PointerExposeProvenance", "PointerWithExposedProvenance")):
+        if kind.startswith(("Transmute", "PtrToPtr", "PointerCoercion", "FnPtrToPtr", "PointerExposeProvenance", "PointerWithExposedProvenance", "Subtype")):
             return v  # representation-preserving for our abstract values
         raise Unsupported(f"cast {kind} to {ty}")
 
@@ -759,10 +768,12 @@ class Executor:
                     snapshots[k2] = cur
                 else:
                     prev = snapshots[k2]
+                    weakened = False
                     for key in list(prev):
                         if key not in cur or not _same(cur[key], prev[key]):
                             del prev[key]
-                    if k2 in done:
+                            weakened = True
+                    if weakened and k2 in done:
                         done.discard(k2)   # knowledge weakened: explore again
                 if k2 not in queue and k2 not in done:
                     queue.append(k2)
@@ -814,8 +825,19 @@ class Executor:
             if len(out) >= ctx.max_paths:
                 out.append(Path("limit", list(st["pc"]), None, list(st["events"]), "path limit"))
                 return
+            ctx.steps += 1
+            if ctx.steps & 0xFF == 0 and time.time() > ctx.deadline:
+                # a time budget per context: an exploration that does not end decides nothing (reported as `limit`, never as a pass)
+                out.append(Path("limit", list(st["pc"]), None, list(st["events"]), f"time budget of {ctx.budget_s}s exhausted"))
+                ctx.max_paths = 0
+                return
             v = visits.get((fid, bb), 0)
-            if v >= ctx.max_visits:
+            lim = ctx.max_visits
+            for rx_, n_ in ctx.visit_overrides:
+                if re.search(rx_, body.header):
+                    lim = n_
+                    break
+            if v >= lim:
                 out.append(Path("unwound", list(st["pc"]), None, list(st["events"]), f"{body.name}:{bb} visited {v} times"))
                 return
             visits = dict(visits)
